@@ -1,9 +1,9 @@
 """T1 anchors for the endpoint routing tables (C09) -> Gen/C09Consts.lean
 
 Besides the numeric constants, three *shape* anchors pin the statements of `endpoint.rs` that the
-hand-written model mirrors and that the findings F5 / connect-leak depend on; when one of them is
-edited (e.g. an ownership check is added to `ConnectionIndex::remove`) the anchor no longer matches,
-the generated definition does not elaborate and Props/C09 stops building: the model has to follow.
+hand-written model mirrors and that the two repaired defects (F5, connect-leak) depend on; when one of
+them is edited (e.g. the ownership check in `ConnectionIndex::remove` is dropped again) the anchor no
+longer matches, the generated definition does not elaborate and Props/C09 stops building.
 """
 import re
 NAME = 'C09Consts'
@@ -28,15 +28,20 @@ def extend(g, api):
         return int(m.group(1)), int(m2.group(1)), int(m2.group(2))
 
     def remove_shape():
-        """ConnectionIndex::remove deletes both address-tuple entries unconditionally (F5)"""
+        """ConnectionIndex::remove drops the address-tuple entries only when they map to the removed handle (F5 fixed)"""
         b = squash(fn_body(read('quinn-proto/src/endpoint.rs'), 'remove', after='impl ConnectionIndex'))
         want = ('ifconn.side.is_server(){self.remove_initial(conn.init_cid);}'
                 'forcidinconn.loc_cids.values(){self.connection_ids.remove(cid);}'
-                'self.incoming_connection_remotes.remove(&conn.addresses);'
-                'self.outgoing_connection_remotes.remove(&conn.addresses.remote);'
+                'ifself.incoming_connection_remotes.get(&conn.addresses)==Some(&ch){'
+                'self.incoming_connection_remotes.remove(&conn.addresses);}'
+                'ifself.outgoing_connection_remotes.get(&conn.addresses.remote)==Some(&ch){'
+                'self.outgoing_connection_remotes.remove(&conn.addresses.remote);}'
                 'ifletSome((remote,token))=conn.reset_token{self.connection_reset_tokens.remove(remote,token);}')
         if want not in b:
             raise TranslateError('ConnectionIndex::remove: statement sequence changed')
+        sig = squash(read('quinn-proto/src/endpoint.rs'))
+        if 'fnremove(&mutself,ch:ConnectionHandle,conn:&ConnectionMeta)' not in sig or 'self.index.remove(ch,&conn);' not in sig:
+            raise TranslateError('ConnectionIndex::remove: signature / call site changed')
         return 1
 
     def get_shape():
@@ -54,13 +59,13 @@ def extend(g, api):
         return 1
 
     def connect_shape():
-        """Endpoint::connect registers the local CID before the fallible TLS `start_session(..)?` (connect leak)"""
+        """Endpoint::connect unregisters the local CID (`index.retire(loc_cid)`) when the TLS `start_session` fails"""
         b = squash(fn_body(read('quinn-proto/src/endpoint.rs'), 'connect'))
         a = b.find('letch=ConnectionHandle(self.connections.vacant_key());letloc_cid=self.new_cid(ch);')
-        c = b.find('.start_session(config.version,server_name,&params)?;')
+        c = b.find('.start_session(config.version,server_name,&params){Ok(tls)=>tls,Err(e)=>{self.index.retire(loc_cid);returnErr(e);}};')
         d = b.find('self.add_connection(')
-        if a < 0 or c < 0 or d < 0 or not (a < c < d):
-            raise TranslateError('Endpoint::connect: statement order changed')
+        if a < 0 or c < 0 or d < 0 or not (a < c < d) or 'start_session(config.version,server_name,&params)?' in b:
+            raise TranslateError('Endpoint::connect: statement order / error path changed')
         return 1
 
     g.nat('cidxResetTokenSize', 'quinn-proto/src/lib.rs::RESET_TOKEN_SIZE', lambda: lib_const('RESET_TOKEN_SIZE'))
@@ -69,6 +74,6 @@ def extend(g, api):
     g.nat('cidxExhaustedMaxLen', 'quinn-proto/src/endpoint.rs::Endpoint::cids_exhausted cid_len bound', lambda: exhausted()[0])
     g.nat('cidxExhaustedBitsPerByte', 'quinn-proto/src/endpoint.rs::Endpoint::cids_exhausted bits per byte', lambda: exhausted()[1])
     g.nat('cidxExhaustedReserveShift', 'quinn-proto/src/endpoint.rs::Endpoint::cids_exhausted reserve shift', lambda: exhausted()[2])
-    g.nat('cidxRemoveUnconditional', 'quinn-proto/src/endpoint.rs::ConnectionIndex::remove statement sequence', remove_shape)
+    g.nat('cidxRemoveChecksOwner', 'quinn-proto/src/endpoint.rs::ConnectionIndex::remove statement sequence', remove_shape)
     g.nat('cidxGetCascade', 'quinn-proto/src/endpoint.rs::ConnectionIndex::get cascade order', get_shape)
-    g.nat('cidxConnectRegistersCidBeforeTls', 'quinn-proto/src/endpoint.rs::Endpoint::connect statement order', connect_shape)
+    g.nat('cidxConnectRetiresCidOnTlsError', 'quinn-proto/src/endpoint.rs::Endpoint::connect statement order', connect_shape)
